@@ -458,57 +458,46 @@ def r09_1(ctx):
     m = op_match(ctx, b, R)
     if m is None:
         return
-    # the saved state: a user variable whose only definition copies another DashState-typed user variable
-    cand = []
-    for l, ds in an.defs_of.items():
-        if not b.locals[l].get('name') or not b.local_ty(l).endswith('DashState'):
-            continue
-        if len(ds) == 1 and ds[0].kind == 'assign' and ds[0].node['rv']['k'] == 'use' and ds[0].node['rv']['o']['k'] in ('copy', 'move'):
-            src = ds[0].node['rv']['o']['p']
-            if not src['pr'] and b.local_ty(src['l']).endswith('DashState'):
-                cand.append((l, src['l'], ds[0]))
-    # copies of copies form one group; the group's root copies the running state directly
-    cl = set(c[0] for c in cand)
-    roots = [c for c in cand if c[1] not in cl]
-    def group_of(root):
-        g = set([root[0]])
-        grew = True
-        while grew:
-            grew = False
-            for c in cand:
-                if c[1] in g and c[0] not in g:
-                    g.add(c[0])
-                    grew = True
-        return g
-    if not ctx.check(len(roots) == 1, R, key + '|saved state', b.loc(), 'one saved copy of the dash state', 'cannot find the saved initial dash state (a DashState copied once from the running state): fail closed'):
-        return
-    initial_root, state, idef = roots[0]
-    initial_group = group_of(roots[0])
     loops = cfg.loops()
     op_header = None
     for h, bl in loops.items():
         if m.bb in bl and (op_header is None or len(bl) > len(loops[op_header])):
             op_header = h
-    norm = [h for h, bl in loops.items() if m.bb not in bl and not any(m.bb in loops[h2] and h in loops[h2] for h2 in loops)]
-    ok = op_header is not None and cfg.dominates(idef.bb, op_header) and idef.bb not in loops.get(op_header, set())
-    ok = ok and bool(norm) and all(cfg.dominates(h, idef.bb) and idef.bb not in loops[h] for h in norm if any(st['k'] == 'assign' and st['p']['l'] == state for x in loops[h] for st in b.blocks[x]['st']))
-    ctx.check(ok, R, key + '|captured after normalisation', b.loc(idef.node['sp']), 'initial state captured after the offset normalisation loop and before the op loop', 'the saved initial dash state is not captured between the offset normalisation loop and the op loop')
+    op_blocks = loops.get(op_header, set()) if op_header is not None else set()
+    ds_locals = [l for l in an.defs_of if b.local_ty(l).endswith('DashState')]
+    # the running state: the DashState variable whose fields are updated inside the op loop
+    running = [l for l in ds_locals if b.locals[l].get('name') and any(d.partial and d.bb in op_blocks for d in an.defs_of[l])]
+    # the saved state: a DashState variable defined once, before the op loop, and never touched again
+    saved = [l for l in ds_locals if b.locals[l].get('name') and l not in running and len(an.defs_of[l]) == 1 and not an.defs_of[l][0].partial
+             and an.defs_of[l][0].kind in ('assign', 'call') and op_header is not None and cfg.dominates(an.defs_of[l][0].bb, op_header) and an.defs_of[l][0].bb not in op_blocks]
+    # ... that holds the same value the running state starts the op loop with
+    def val(l):
+        d = an.defs_of[l][0]
+        return nosite(an.def_term(d))
+    if not ctx.check(len(running) == 1 and len(saved) >= 1, R, key + '|saved state', b.loc(), 'running dash state and a saved copy of its initial value found',
+                     'cannot find the running dash state and the saved initial dash state (a DashState defined once before the op loop): fail closed'):
+        return
+    state = running[0]
+    entry_defs = [d for d in an.reaching(state, op_header, 0) if d.bb not in op_blocks]
+    saved = [l for l in saved if any(not d.partial and (nosite(an.def_term(d)) == val(l) or nosite(an.def_term(d)) == nosite(('mem', l)) or nosite(an.def_term(d)) == nosite(an.local_term(d.bb, d.idx, l))) for d in an.defs_of[state] if d.bb not in op_blocks and d.kind == 'assign')
+             or val(l) in [nosite(an.local_term(an.defs_of[l][0].bb, an.defs_of[l][0].idx, state))]]
+    if not ctx.check(len(saved) >= 1, R, key + '|saved state', b.loc(), 'saved copy is the value the running state enters the op loop with',
+                     'no DashState saved before the op loop equals the running state at loop entry (the copy must be taken after the offset normalisation): fail closed'):
+        return
+    saved_vals = set(val(l) for l in saved)
+    idef = an.defs_of[saved[0]][0]
+    # normalisation loops: loops before the op loop that update a DashState
+    norm = [h for h, bl in loops.items() if m.bb not in bl and not (op_blocks and h in op_blocks)
+            and any(st['k'] == 'assign' and st['p']['l'] in ds_locals and st['p']['pr'] for x in bl for st in b.blocks[x]['st'])]
+    ok = bool(norm) and all(cfg.dominates(h, idef.bb) and idef.bb not in loops[h] for h in norm)
+    ctx.check(ok, R, key + '|captured after normalisation', b.loc(idef.node['sp']) if idef.node else b.loc(), 'initial state captured after the offset normalisation loop and before the op loop', 'the saved initial dash state is not captured between the offset normalisation loop and the op loop')
     def restores(region):
         out = set()
         for d in an.defs_of.get(state, []):
             if d.bb in region and d.kind == 'assign' and not d.partial:
-                rv, bb2, idx2 = d.node['rv'], d.bb, d.idx
-                hops = 0
-                while rv['k'] == 'use' and rv['o']['k'] in ('copy', 'move') and not rv['o']['p']['pr'] and hops < 8:
-                    hops += 1
-                    src = rv['o']['p']['l']
-                    if src in initial_group:
-                        out.add(d.bb)
-                        break
-                    ds2 = an.reaching(src, bb2, idx2)
-                    if len(ds2) != 1 or ds2[0].kind != 'assign' or ds2[0].partial:
-                        break
-                    rv, bb2, idx2 = ds2[0].node['rv'], ds2[0].bb, ds2[0].idx
+                t = nosite(an.def_term(d))
+                if t in saved_vals or any(t == nosite(an.local_term(d.bb, d.idx, l)) for l in saved):
+                    out.add(d.bb)
         return out
     stop = cfg.ipdom(m.bb)
     if 'MoveTo' in m.arms:
@@ -717,25 +706,44 @@ def r09_4(ctx):
         if t[0] == 'rec':
             return pred(an.defs[t[1]])
         return False
-    for d in an.defs_of.get(off, []):
-        if d.kind != 'assign':
+    # the running offset lives in the (re-assigned) parameter or in a local initialised from it
+    off_locals = [off]
+    for d in an.defs:
+        if d.kind != 'assign' or d.partial or d.local == off:
             continue
         t = an.def_term(d)
-        # the reduction is applied to the offset as given (not to an already folded value: `%` keeps the sign, so
-        # folding a negative offset by one period first and reducing afterwards leaves offsets below -period negative)
-        if t[0] == 'bin' and t[1] == 'Rem' and only_defs(t[2], lambda dd: dd is None or dd.kind == 'param'):
-            rem = True
-            rem_defs.append(d)
-    for d in an.defs_of.get(off, []):
-        if d.kind != 'assign':
-            continue
-        t = an.def_term(d)
-        if t[0] == 'bin' and t[1] == 'Add':
-            gs = normalized_guards(ctx, b, d.bb)
-            if any(op == 'Lt' and const_val(b2) == 0 and (a[0] in ('phi', 'bin') or a == ('param', off)) for op, a, b2, si in gs):
-                # ... and the fold is applied to the reduced value
-                if (t[2][0] == 'bin' and t[2][1] == 'Rem') or only_defs(t[2], lambda dd: dd is not None and dd in rem_defs):
-                    nonneg = True
+        if t[0] == 'bin' and t[1] == 'Rem' and strip_all(t[2]) == ('param', off) and b.locals[d.local].get('name'):
+            off_locals.append(d.local)
+    def only_defs_of(t, pred):
+        t = strip_all(t)
+        if t == ('param', off):
+            return pred(None)
+        if t[0] == 'phi' and t[1] in off_locals:
+            return bool(t[2]) and all(pred(an.defs[i]) for i in t[2])
+        if t[0] == 'rec':
+            return pred(an.defs[t[1]])
+        return False
+    for L in off_locals:
+        for d in an.defs_of.get(L, []):
+            if d.kind != 'assign':
+                continue
+            t = an.def_term(d)
+            # the reduction is applied to the offset as given (not to an already folded value: `%` keeps the sign, so
+            # folding a negative offset by one period first and reducing afterwards leaves offsets below -period negative)
+            if t[0] == 'bin' and t[1] == 'Rem' and only_defs_of(t[2], lambda dd: dd is None or dd.kind == 'param'):
+                rem = True
+                rem_defs.append(d)
+    for L in off_locals:
+        for d in an.defs_of.get(L, []):
+            if d.kind != 'assign':
+                continue
+            t = an.def_term(d)
+            if t[0] == 'bin' and t[1] == 'Add':
+                gs = normalized_guards(ctx, b, d.bb)
+                if any(op == 'Lt' and const_val(b2) == 0 and (a[0] in ('phi', 'bin') or a == ('param', off)) for op, a, b2, si in gs):
+                    # ... and the fold is applied to the reduced value
+                    if (t[2][0] == 'bin' and t[2][1] == 'Rem') or only_defs_of(t[2], lambda dd: dd is not None and dd in rem_defs):
+                        nonneg = True
     ctx.check(rem, R, key + '|offset reduced modulo the period', b.loc(), 'dash_offset %= total', 'dash_offset is not reduced modulo the period (large offsets would loop for a long time)')
     ctx.check(nonneg, R, key + '|negative offset wrapped', b.loc(), 'dash_offset += total when the reduced offset is negative', 'a negative dash_offset is not wrapped into [0, period): the fold `+= period` must be applied to the result of `% period` (the other order leaves offsets below -period negative)')
 
@@ -1049,7 +1057,8 @@ def emitted_polygons(ctx, b, region=None):
     an = ctx.an(b)
     cfg = an.cfg
     calls = [(bi, d, ct) for bi, d, ct in calls_in(ctx, b, region) if d in (PB + 'move_to', PB + 'line_to', PB + 'close')]
-    calls.sort(key=lambda c: sum(1 for o in calls if o[0] != c[0] and cfg.dominates(o[0], c[0])))
+    _snap = list(calls)
+    calls = sorted(_snap, key=lambda c: sum(1 for o in _snap if o[0] != c[0] and cfg.dominates(o[0], c[0])))
     groups, cur = [], None
     for bi, d, ct in calls:
         if d == PB + 'move_to':
